@@ -146,6 +146,18 @@ pub fn c11(o: &Opts) -> Outcome {
             }
         }
     }
+    // many records of distinct, decreasing lengths (later records finish first) and many workers: line r belongs to record r
+    {
+        let n = 1600usize;
+        let recs: Vec<Vec<u8>> = (0..n).map(|i| { let l = n - i; (0..l).map(|j| b"ACGT"[(i + j) % 4]).collect() }).collect();
+        for threads in [2usize, 8, 16] {
+            cases += recs.len() as u64;
+            if let Some(mut w) = c11_batch(&recs, 4, threads) {
+                for kv in w.iter_mut() { if kv.0 == "seq" { kv.1 = format!("<one of {} records of lengths {}..1>", n, n); } }
+                return Outcome { cases, witness: Some(w) };
+            }
+        }
+    }
     // records with no bases between ordinary records: one (empty) row each
     {
         let recs: Vec<Vec<u8>> = vec![b"ACGT".to_vec(), vec![], b"GGGTTTA".to_vec(), vec![], vec![], b"T".to_vec(), vec![]];
@@ -259,6 +271,15 @@ pub fn c12(o: &Opts) -> Outcome {
                 cases += recs.len() as u64;
                 if let Some(w) = c12_batch(&recs, k, size, norm, 3) { return Outcome { cases, witness: Some(w) }; }
             }
+        }
+    }
+    // records of exactly k, k+1 and k-1 bases, also between ambiguous bytes
+    for k in [3usize, 5] {
+        let base: Vec<u8> = (0..k + 1).map(|i| b"ACGGTCATTG"[i % 10]).collect();
+        let recs: Vec<Vec<u8>> = vec![base[..k].to_vec(), base.clone(), base[..k - 1].to_vec(), [b"N".to_vec(), base[..k].to_vec(), b"N".to_vec()].concat()];
+        for norm in [false, true] {
+            cases += recs.len() as u64;
+            if let Some(w) = c12_batch(&recs, k, 8, norm, 2) { return Outcome { cases, witness: Some(w) }; }
         }
     }
     // multi-member gzip input
